@@ -110,6 +110,18 @@ def main(argv=None):
 
     t0 = time.time()
     m = load_prop(pid)
+    selftest_info = None
+    if not os.environ.get("VERIF_SKIP_SELFTEST"):
+        # validation of the encoding (numpy stand-ins, FP models, real functions under the shim) - fail closed
+        from . import selftest
+        with cf.ProcessPoolExecutor(max_workers=1, mp_context=mp.get_context("fork")) as ex:
+            ncases, fails = ex.submit(selftest.run, seed).result()
+        selftest_info = {"cases": ncases, "failures": len(fails)}
+        if fails:
+            print(f"HARNESS-ERROR property={pid} self-test of the encoding failed ({len(fails)} of {ncases}):")
+            for f_ in fails[:10]:
+                print("   " + f_[:200])
+            return 3
     obs = obligations(pid, a.tier)
     from .harness import cfg_key
     idxs = [i for i, o in enumerate(obs) if not a.only or a.only in (o[0] + " " + cfg_key(o[2]))]
@@ -146,6 +158,7 @@ def main(argv=None):
 
     wall = time.time() - t0
     ev = build_evidence(pid, a.tier, seed, m, obs, results, wall, violations, known_hits, broken)
+    ev["coverage"]["encoding_selftest"] = selftest_info
     with open(os.path.join(EVID, f"{pid}.json"), "w") as f:
         json.dump(ev, f, indent=1, default=str)
 
